@@ -650,7 +650,7 @@ def _forced_conflict(draw, base):
     n = len(base["cells"])
     shape = draw(st.sampled_from(["del_vs_edit", "edit_vs_del", "both_edit_source", "both_edit_outputs", "both_edit_meta",
                                   "both_insert_same_pos", "both_insert_similar", "both_insert_runs", "both_insert_runs", "insert_next_to_edit", "insert_next_to_del",
-                                  "both_append_nonl", "both_attach", "both_attach_leftover", "same_insert_next_line_edit", "same_insert_next_line_edit", "both_add_outputs_shared", "both_add_outputs_shared", "both_nbmeta", "both_minor", "both_del", "both_ec", "both_change_id",
+                                  "both_append_nonl", "both_attach", "both_attach_leftover", "same_insert_next_line_edit", "same_insert_next_line_edit", "both_add_outputs_shared", "both_add_outputs_shared", "attach_del_vs_edit", "out_insert_vs_change", "out_insert_vs_change", "both_nbmeta", "both_minor", "both_del", "both_ec", "both_change_id",
                                   "both_same_edit", "both_edit_same_output", "both_edit_same_output", "transient_meta", "type_vs_edit", "type_vs_edit", "type_vs_edit", "both_rerun", "both_rerun", "both_rerun", "both_rerun", "two_outputs", "two_outputs", "both_insert_block"]))
     usedl, usedr = _ids(l), _ids(r)
     if shape == "both_insert_runs":
@@ -686,7 +686,7 @@ def _forced_conflict(draw, base):
         return l, r, shape
     i = draw(st.integers(0, n - 1))
     code_idx = [k for k, x in enumerate(base["cells"]) if x["cell_type"] == "code"]
-    if code_idx and shape in ("both_add_outputs_shared", "both_edit_outputs", "both_ec", "both_edit_same_output", "transient_meta", "type_vs_edit", "both_rerun", "two_outputs"):
+    if code_idx and shape in ("both_add_outputs_shared", "out_insert_vs_change", "both_edit_outputs", "both_ec", "both_edit_same_output", "transient_meta", "type_vs_edit", "both_rerun", "two_outputs"):
         i = draw(st.sampled_from(code_idx))      # shapes about outputs / execution counts need a code cell
     c = base["cells"][i]
     dve = draw(st.sampled_from([None, None, ["source", "rerun"], ["source", "toggle"], ["rerun"], ["rerun", "toggle"], ["source", "outputs"]]))
@@ -762,6 +762,33 @@ def _forced_conflict(draw, base):
             side["cells"][i]["outputs"][pos:pos] = new
         if draw(st.booleans()):
             l["cells"][i]["execution_count"] = r["cells"][i]["execution_count"] = 11
+    elif shape == "attach_del_vs_edit" and c["cell_type"] != "code":
+        # one side deletes an attachment (the image is gone), the other re-generates it (same file name, new data)
+        name = draw(st.sampled_from(["a.png", "img.png"]))
+        att = {name: {"image/png": B64A}}
+        if draw(st.booleans()):
+            att["other.png"] = {"image/png": B64B}
+        for nb_ in (base, l, r):
+            nb_["cells"][i]["attachments"] = copy.deepcopy(att)
+        deleter, editor = (l, r) if draw(st.booleans()) else (r, l)
+        del deleter["cells"][i]["attachments"][name]
+        if not deleter["cells"][i]["attachments"] and draw(st.booleans()):
+            del deleter["cells"][i]["attachments"]
+        editor["cells"][i]["attachments"][name] = {"image/png": draw(st.sampled_from([B64B, B64C]))}
+    elif shape == "out_insert_vs_change" and c["cell_type"] == "code":
+        # one side inserts an output directly in front of an output the other side changed or deleted
+        if not c["outputs"]:
+            o = {"output_type": "stream", "name": "stdout", "text": "result 1\nresult 2\n"}
+            for nb_ in (base, l, r):
+                nb_["cells"][i]["outputs"].append(copy.deepcopy(o))
+        outs = base["cells"][i]["outputs"]
+        k = draw(st.integers(0, len(outs) - 1))
+        ins, chg = (l, r) if draw(st.booleans()) else (r, l)
+        ins["cells"][i]["outputs"].insert(k, draw(output()))
+        if draw(st.booleans()):
+            del chg["cells"][i]["outputs"][k]
+        else:
+            chg["cells"][i]["outputs"][k] = draw(edit_output(outs[k]))
     elif shape == "both_change_id":
         # both sides re-created the cell (cut and paste): same content, a new id on each side
         if "id" in c:
